@@ -137,4 +137,23 @@ theorem checkSubs_complete : (gs : List NGraph) → (vis : List String) → (st 
     exact hrest
 end
 
+mutual
+theorem wfB_iff : (g : NGraph) → (wfB g = true ↔ WfG g)
+  | .mk ins inits nodes outs => by
+    simp only [wfB, WfG, Bool.and_eq_true, decide_eq_true_eq, Bool.not_eq_true', wfNsB_iff nodes]
+    constructor
+    · rintro ⟨⟨h1, h2⟩, h3⟩
+      exact ⟨h1, by simpa using h2, h3⟩
+    · rintro ⟨h1, h2, h3⟩
+      exact ⟨⟨h1, by simpa using h2⟩, h3⟩
+theorem wfNsB_iff : (ns : List NNode) → (wfNsB ns = true ↔ WfNs ns)
+  | [] => by simp [wfNsB, WfNs]
+  | (.mk _ _ _ subs) :: rest => by
+    simp only [wfNsB, WfNs, Bool.and_eq_true, wfGsB_iff subs, wfNsB_iff rest]
+theorem wfGsB_iff : (gs : List NGraph) → (wfGsB gs = true ↔ WfGs gs)
+  | [] => by simp [wfGsB, WfGs]
+  | g :: gs => by
+    simp only [wfGsB, WfGs, Bool.and_eq_true, wfB_iff g, wfGsB_iff gs]
+end
+
 end Named
